@@ -83,6 +83,16 @@ import (
 //
 // Nothing is demanded of the Listen calls themselves (whether an intended failure really
 // failed is a label).
+//
+// The advertised address is obtained in TWO ways at every sampling instant: Listener.Multiaddr()
+// and Transport.AddCertHashes(bare /webtransport address) - what swarm.AddCertHashes / the basic
+// host use for observed, NAT-mapped and user-provided addresses. Generated: the bare address,
+// the step from which AddCertHashes is called (mostly the first; sometimes after k rollovers;
+// sometimes never = control), a call before the first Listen (nothing demanded), a second bare
+// address from a later step. The address obtained through AddCertHashes is held to rules (2) and
+// (4) like the listener's own: it contains the hash of what every live listener serves now, and
+// every such address obtained at any sampled instant of the current or the previous period
+// verifies what is served now (see sampleACH).
 
 // ---------------------------------------------------------------------------
 // in-memory UDP stack
@@ -244,6 +254,40 @@ type lfSpec struct {
 	Start    deltaSpec   `json:"start"`
 	Steps    []lfStep    `json:"steps"`
 	Epilogue bool        `json:"epilogue"`
+	ACH      achSpec     `json:"addCertHashes"`
+}
+
+// achSpec: how the OTHER way of obtaining an advertised address of the running transport is
+// exercised: Transport.AddCertHashes(bare address), which swarm.AddCertHashes / the basic host
+// use for observed, NAT-mapped and user-provided /webtransport addresses.
+type achSpec struct {
+	Base   int  `json:"base"`   // which bare /webtransport address is completed
+	From   int  `json:"from"`   // index of the first step at whose instants AddCertHashes is called (>= len(steps): never)
+	Early  bool `json:"early"`  // also called once before the first Listen of the transport (nothing is demanded of that call)
+	Second int  `json:"second"` // a second bare address, completed from this step on (a caller that shows up later)
+}
+
+var achBases = []string{
+	"/ip4/203.0.113.7/udp/4001/quic-v1/webtransport",      // observed / NAT-mapped
+	"/ip4/1.0.0.1/udp/443/quic-v1/webtransport",           // user-provided announce address on a local IP
+	"/dns4/node.example.org/udp/443/quic-v1/webtransport", // user-provided DNS name
+	"/ip6/2001:db8::7/udp/4001/quic-v1/webtransport",
+}
+
+func drawACH(rt *rapid.T, nsteps int) achSpec {
+	var a achSpec
+	a.Base = rapid.IntRange(0, len(achBases)-1).Draw(rt, "achBase")
+	switch k := rapid.IntRange(0, 9).Draw(rt, "achFromKind"); {
+	case k <= 5:
+		a.From = 0
+	case k <= 8:
+		a.From = rapid.IntRange(0, nsteps-1).Draw(rt, "achFrom")
+	default:
+		a.From = nsteps // never: control (the history as it was generated before this dimension existed)
+	}
+	a.Early = rapid.IntRange(0, 3).Draw(rt, "achEarly") == 0
+	a.Second = rapid.IntRange(0, nsteps).Draw(rt, "achSecond")
+	return a
 }
 
 func drawLFSpec(rt *rapid.T) lfSpec {
@@ -256,6 +300,7 @@ func drawLFSpec(rt *rapid.T) lfSpec {
 		s.Steps = append(s.Steps, drawLFStep(rt))
 	}
 	s.Epilogue = rapid.IntRange(0, 3).Draw(rt, "epilogue") > 0
+	s.ACH = drawACH(rt, n)
 	return s
 }
 
@@ -319,6 +364,132 @@ type lfWorld struct {
 	relistenAfterGap bool
 	firstFailPeriod  int    // certificate period of the first failed Listen (-1: none yet)
 	firstAfterFail   string // "", "same-period", "later-period": the FIRST listener of the transport was opened after a failed Listen
+
+	// addresses obtained through Transport.AddCertHashes
+	ach            achSpec
+	step           int          // index of the step being executed
+	achAdverts     []*achAdvert // distinct (period, base, hash set) obtained so far
+	achCalls       int
+	achEarly       string // "", "not-completed", "completed": outcome of the call before the first Listen
+	achFirstPeriod int    // certificate period of the first call with a live listener (-1: none yet)
+	achMaxRolls    int    // max rollovers of the running transport between its first AddCertHashes call and a judged one
+	achAcross      bool   // an address obtained through AddCertHashes verified the certificate of the following period
+	achNotOK       int    // calls that returned ok=false while a listener was live (label; judged through the hashes)
+}
+
+type achAdvert struct {
+	base string
+	at   time.Time
+	idx  int // certificate period in which the address was obtained
+	hs   hashSet
+}
+
+type certHashAdder interface {
+	AddCertHashes(ma.Multiaddr) (ma.Multiaddr, bool)
+}
+
+func hashesOf(rt *rapid.T, at string, a ma.Multiaddr) hashSet {
+	var out hashSet
+	ma.ForEach(a, func(c ma.Component) bool {
+		if c.Protocol().Code != ma.P_CERTHASH {
+			return true
+		}
+		dh, err := multihash.Decode(c.RawValue())
+		if err != nil {
+			rt.Fatalf("%s: %s holds an undecodable certhash: %v", at, a, err)
+		}
+		out = append(out, *dh)
+		return true
+	})
+	return out
+}
+
+type lfServed struct {
+	l    *lfListener
+	raw  []byte
+	sum  [32]byte
+	cert *x509.Certificate
+}
+
+// sampleACH: at a sampling instant at which live listeners were observed, obtain the address
+// of the running transport the OTHER way - Transport.AddCertHashes on a bare /webtransport
+// address - and hold it to the rules the listener's own Multiaddr() is held to:
+//
+//	(2) its certhashes contain the SHA-256 of the certificate every live listener serves now;
+//	(4) "an address learned at any time keeps verifying through the current and the following
+//	    certificate period": every address obtained this way at ANY earlier sampled instant of the
+//	    current or the previous period verifies what is served now (hence it held the hash of the
+//	    certificate served next when it was handed out).
+func (w *lfWorld) sampleACH(why string, served []lfServed) {
+	if len(served) == 0 || w.step < w.ach.From {
+		return
+	}
+	rt := w.rt
+	now := time.Now()
+	cur := len(w.periodSum) - 1
+	adder, ok := w.tr.(certHashAdder)
+	if !ok {
+		rt.Fatalf("harness: the webtransport transport has no AddCertHashes method")
+	}
+	bases := []string{achBases[w.ach.Base]}
+	if w.step >= w.ach.Second {
+		bases = append(bases, achBases[(w.ach.Base+1)%len(achBases)])
+	}
+	if w.achFirstPeriod < 0 {
+		w.achFirstPeriod = cur
+	}
+	rollsSinceFirst := cur - w.achFirstPeriod
+	for _, b := range bases {
+		base, err := ma.NewMultiaddr(b)
+		if err != nil {
+			rt.Fatalf("harness: %s: %v", b, err)
+		}
+		got, completed := adder.AddCertHashes(base)
+		w.achCalls++
+		if !completed {
+			w.achNotOK++
+		}
+		at := fmt.Sprintf("AddCertHashes(%s) = %s, %v at %s (%s; first called with a live listener %d rollover(s) ago)", b, got, completed, ts(now), why, rollsSinceFirst)
+		hs := hashesOf(rt, at, got)
+		// (2)
+		for _, sv := range served {
+			if !hs.hasSHA256(sv.sum) {
+				rt.Fatalf("%s: the address lacks the sha2-256 hash %x of the certificate [%s, %s] that listener #%d %s of this transport is serving now (its Multiaddr() is %s)%s",
+					at, sv.sum[:6], ts(sv.cert.NotBefore), ts(sv.cert.NotAfter), sv.l.id, sv.l.udp, sv.l.ln.Multiaddr(), w.historyString())
+			}
+		}
+		w.achMaxRolls = max(w.achMaxRolls, rollsSinceFirst)
+		dup := false
+		for _, ad := range w.achAdverts {
+			if ad.idx == cur && ad.base == b && ad.hs.key() == hs.key() {
+				dup = true
+				break
+			}
+		}
+		if !dup {
+			w.achAdverts = append(w.achAdverts, &achAdvert{base: b, at: now, idx: cur, hs: hs})
+		}
+	}
+	// (4)
+	for _, ad := range w.achAdverts {
+		if cur-ad.idx > 1 || cur-ad.idx < 0 {
+			continue
+		}
+		for _, sv := range served {
+			at := fmt.Sprintf("listener #%d %s at %s (%s)", sv.l.id, sv.l.udp, ts(now), why)
+			if !ad.hs.hasSHA256(sv.sum) {
+				rt.Fatalf("%s: the address obtained through AddCertHashes(%s) at %s (certificate period %d, now %d) holds %v, none of which is the sha2-256 hash %x of the certificate served now: when it was handed out it lacked the hash of the certificate served next%s",
+					at, ad.base, ts(ad.at), ad.idx, cur, ad.hs, sv.sum[:6], w.historyString())
+			}
+			if err := wt.VerifVerifyRawCerts([][]byte{sv.raw}, []multihash.DecodedMultihash(ad.hs)); err != nil {
+				rt.Fatalf("%s: the address obtained through AddCertHashes(%s) at %s (certificate period %d, now %d) no longer verifies the served certificate [%s, %s]: %v%s",
+					at, ad.base, ts(ad.at), ad.idx, cur, ts(sv.cert.NotBefore), ts(sv.cert.NotAfter), err, w.historyString())
+			}
+			if cur-ad.idx == 1 {
+				w.achAcross = true
+			}
+		}
+	}
 }
 
 func (w *lfWorld) live() []*lfListener {
@@ -557,6 +728,7 @@ func (w *lfWorld) sampleAll(why string) {
 	now := time.Now()
 	w.refresh()
 	cur := len(w.periodSum) - 1
+	var served []lfServed
 	for _, l := range w.live() {
 		w.samples++
 		at := fmt.Sprintf("listener #%d %s (open since %s, %d rollover(s) seen) at %s (%s)", l.id, l.udp, ts(l.created), l.rolls, ts(now), why)
@@ -611,6 +783,7 @@ func (w *lfWorld) sampleAll(why string) {
 			}
 		}
 		l.lastSum = sum
+		served = append(served, lfServed{l: l, raw: raw, sum: sum, cert: cert})
 		// (4) addresses learnt from this listener in the current or the previous period
 		for _, le := range w.learnt {
 			if le.from != l || cur-le.idx > 1 {
@@ -632,6 +805,7 @@ func (w *lfWorld) sampleAll(why string) {
 			}
 		}
 	}
+	w.sampleACH(why, served)
 	// Let the server side of the reference handshakes settle before the history goes on: a
 	// listener closed while its accept loop is still handing a fresh connection to the
 	// webtransport-go server makes that server panic (nil map in ServeQUICConn after Close) -
@@ -682,7 +856,7 @@ func TestTransportListenHistory(t *testing.T) {
 	name := t.Name()
 	hx.Check(t, 480, 16000, 0, func(rt *rapid.T) {
 		spec := drawLFSpec(rt)
-		w := &lfWorld{rt: rt, net: newFakeUDP(), nextPort: 4000, firstFailPeriod: -1, failed: map[string]int{}, unexpectedOK: map[string]bool{}, failWhen: map[string]bool{}}
+		w := &lfWorld{rt: rt, net: newFakeUDP(), nextPort: 4000, firstFailPeriod: -1, achFirstPeriod: -1, ach: spec.ACH, failed: map[string]int{}, unexpectedOK: map[string]bool{}, failWhen: map[string]bool{}}
 		var offCls string
 		hx.Bubble(t, rt, func() {
 			defer w.shutdown()
@@ -721,7 +895,19 @@ func TestTransportListenHistory(t *testing.T) {
 			}
 			w.obs = &quic.Transport{Conn: w.obsSock}
 
+			if spec.ACH.Early {
+				// before the first Listen of the transport: nothing is demanded (there is no listener whose
+				// certificate could be advertised); the call is part of the history
+				base := ma.StringCast(achBases[spec.ACH.Base])
+				got, completed := w.tr.(certHashAdder).AddCertHashes(base)
+				w.achEarly = "not-completed"
+				if completed {
+					w.achEarly = "completed"
+				}
+				w.hist("AddCertHashes(%s) before the first Listen = %s, %v", base, got, completed)
+			}
 			for i, st := range spec.Steps {
+				w.step = i
 				why := fmt.Sprintf("step %d %s", i, st.class())
 				w.act(st, i == len(spec.Steps)-1)
 				w.sampleAll(why + " after the action")
@@ -787,12 +973,34 @@ func TestTransportListenHistory(t *testing.T) {
 		if w.samples == 0 {
 			labels = append(labels, "lf:no-sample")
 		}
+		// addresses obtained through AddCertHashes
+		switch {
+		case w.achCalls == 0:
+			labels = append(labels, "lf:addcerthashes=never-called")
+		default:
+			labels = append(labels, "lf:addcerthashes=sampled",
+				fmt.Sprintf("lf:addcerthashes:first-call-in-period=%d", min(w.achFirstPeriod, 3)),
+				fmt.Sprintf("lf:addcerthashes:rollovers-between-first-call-and-a-judged-call=%d", min(w.achMaxRolls, 4)),
+				"lf:addcerthashes:base="+achBases[spec.ACH.Base])
+			if w.achAcross {
+				labels = append(labels, "lf:addcerthashes:address-verified-in-following-period")
+			}
+			if w.achNotOK > 0 {
+				labels = append(labels, "lf:addcerthashes:note:returned-false-with-a-live-listener")
+			}
+			if spec.ACH.Second > 0 && spec.ACH.Second < len(spec.Steps) {
+				labels = append(labels, "lf:addcerthashes:second-address-from-a-later-step")
+			}
+		}
+		if w.achEarly != "" {
+			labels = append(labels, "lf:addcerthashes:called-before-first-listen/"+w.achEarly)
+		}
 		sort.Strings(labels)
-		fp := fmt.Sprintf("%s|%s|%d|%s|%s|%v|r%d", spec.Key.Kind, offCls, spec.J, spec.Start.Class, strings.Join(cls, ","), spec.Epilogue, w.rollovers)
+		fp := fmt.Sprintf("%s|%s|%d|%s|%s|%v|r%d|ach%d,%v", spec.Key.Kind, offCls, spec.J, spec.Start.Class, strings.Join(cls, ","), spec.Epilogue, w.rollovers, min(spec.ACH.From, len(spec.Steps)), spec.ACH.Early)
 		stats.Case(name, fp, nontrivial, labels...)
 		if stats.WantSample(name) {
 			stats.Sample(name, map[string]any{"spec": spec, "history": w.history, "rollovers": w.rollovers, "samples": w.samples,
-				"failed_listens": w.failed, "binds": w.net.binds, "binds_refused": w.net.refused})
+				"failed_listens": w.failed, "addcerthashes_calls": w.achCalls, "addcerthashes_distinct_addresses": len(w.achAdverts), "binds": w.net.binds, "binds_refused": w.net.refused})
 		}
 	})
 }
